@@ -80,6 +80,8 @@ impl<H: ExtendableOutput> ExtendableOutput for Traced<H> {
 
 type X256 = ExpandMsgXmd<Traced<sha2::Sha256>>;
 type X512 = ExpandMsgXmd<Traced<sha2::Sha512>>;
+type X224 = ExpandMsgXmd<Traced<sha2::Sha224>>;
+type X384 = ExpandMsgXmd<Traced<sha2::Sha384>>;
 type S128 = ExpandMsgXof<Traced<sha3::Shake128>>;
 type S256 = ExpandMsgXof<Traced<sha3::Shake256>>;
 
@@ -87,6 +89,8 @@ fn expand(x: &str, msg: &[u8], dst: &[u8], len: usize) -> Vec<u8> {
     match x {
         "xmd-sha256" => X256::expand_message(msg, dst, len),
         "xmd-sha512" => X512::expand_message(msg, dst, len),
+        "xmd-sha224" => X224::expand_message(msg, dst, len),
+        "xmd-sha384" => X384::expand_message(msg, dst, len),
         "xof-shake128" => S128::expand_message(msg, dst, len),
         "xof-shake256" => S256::expand_message(msg, dst, len),
         _ => panic!("unknown expander {}", x),
@@ -96,6 +100,8 @@ fn h2f<T: FromRO + J>(x: &str, msg: &[u8], dst: &[u8], count: usize) -> Value {
     let v: Vec<T> = match x {
         "xmd-sha256" => hash_to_field::<T, X256>(msg, dst, count),
         "xmd-sha512" => hash_to_field::<T, X512>(msg, dst, count),
+        "xmd-sha224" => hash_to_field::<T, X224>(msg, dst, count),
+        "xmd-sha384" => hash_to_field::<T, X384>(msg, dst, count),
         "xof-shake128" => hash_to_field::<T, S128>(msg, dst, count),
         "xof-shake256" => hash_to_field::<T, S256>(msg, dst, count),
         _ => panic!("unknown expander {}", x),
